@@ -166,6 +166,7 @@ func runC15(c *runCtx) {
 
 // a host repository with everything a project has, its remote, and a second clone
 type c15World struct {
+	ident              map[string]string // author.* / committer.* / user.* as set in A's configuration
 	root, a, b, origin string
 }
 
@@ -208,17 +209,38 @@ func newC15World(r *rng, detached bool) *c15World {
 	}
 	mustGit(w.a, "config", "--add", "remote.origin.fetch", "+refs/pull/*/head:refs/remotes/origin/pr/*")
 	// the host's own identity settings, in forms stock git accepts (it cleans them when it writes a commit)
-	switch r.intn(4) {
+	w.ident = map[string]string{}
+	setIdent := func(k, v string) {
+		mustGit(w.a, "config", k, v)
+		w.ident[k] = v
+	}
+	switch r.intn(5) {
 	case 0:
-		mustGit(w.a, "config", "user.name", "Alice <ops>")
-		mustGit(w.a, "config", "user.email", "<alice@example.com>")
+		setIdent("user.name", "Alice <ops>")
+		setIdent("user.email", "<alice@example.com>")
 	case 1:
-		mustGit(w.a, "config", "author.name", "Au <thor>")
-		mustGit(w.a, "config", "author.email", "<au@example.com>")
-		mustGit(w.a, "config", "committer.name", "Com\nmit.")
+		setIdent("author.name", "Au <thor>")
+		setIdent("author.email", "<au@example.com>")
+		setIdent("committer.name", "Com\nmit.")
 	case 2:
-		mustGit(w.a, "config", "committer.email", "  c@example.com> ")
-		mustGit(w.a, "config", "author.name", "\"Quoted, Name\"")
+		setIdent("committer.email", "  c@example.com> ")
+		setIdent("author.name", "\"Quoted, Name\"")
+	case 3:
+		// anything: crud at the ends, brackets and control characters inside, other scripts
+		pool := []rune(" .,:;<>\"\\'\t\nabZ9@-é日")
+		rnd := func() string {
+			n := r.intn(12)
+			out := make([]rune, n)
+			for i := range out {
+				out[i] = pickOne(r, pool)
+			}
+			return string(out)
+		}
+		for _, k := range []string{"author.name", "author.email", "committer.name", "committer.email"} {
+			if v := rnd(); v != "" {
+				setIdent(k, v)
+			}
+		}
 	}
 	os.WriteFile(filepath.Join(w.a, ".git", "hooks", "pre-commit"), []byte("#!/bin/sh\nexit 0\n"), 0o755)
 	os.WriteFile(filepath.Join(w.a, ".git", "info", "exclude"), []byte("*.tmp\n"), 0o644)
@@ -454,6 +476,7 @@ func c15Session(c *runCtx, r *rng, gb string, n int) {
 	c.count(fmt.Sprintf("bugs-at-end=%d", min(len(before), 9)))
 	// the trees git-bug wrote, as stored, go to the model
 	c15StoredTrees(c, w.a)
+	c15Idents(c, w)
 	c.nontrivial(strings.Join(log, "|"))
 	// wipe leaves the host alone too (the fsck, clone and gc above were the harness's doing)
 	snapA, snapB, snapO = hostSnapshot(w.a, false), hostSnapshot(w.b, false), hostSnapshot(w.origin, true)
@@ -711,5 +734,53 @@ func c15PackedRefs(c *runCtx, gb string) {
 		}
 		c.count("packed-refs=" + packer[0])
 		c.nontrivial("packed|" + packer[0])
+	}
+}
+
+// c15Idents: the author and committer of a commit git-bug wrote in A, against the model's cleaning of
+// what A's configuration holds (GitBugModel.Ident.cleanIdent), and fsck's verdict on that line.
+func c15Idents(c *runCtx, w *c15World) {
+	out, err := gitIn(w.a, "for-each-ref", "--format=%(objectname)", "refs/bugs/", "refs/identities/")
+	if err != nil {
+		return
+	}
+	seen := map[string]bool{}
+	for _, h := range strings.Fields(out) {
+		raw, err := gitIn(w.a, "cat-file", "commit", h)
+		if err != nil {
+			continue
+		}
+		// only commits written under A's configuration carry its settings: the others came by pull
+		for _, who := range []string{"author", "committer"} {
+			// (a newline inside the name would end the header line early: read up to the date by position)
+			i := strings.Index(raw, "\n"+who+" ")
+			if i < 0 {
+				continue
+			}
+			rest := raw[i+len(who)+2:]
+			j := strings.Index(rest, "> ")
+			if j < 0 {
+				j = strings.Index(rest, "\n")
+				if j < 0 {
+					continue
+				}
+			} else {
+				j++
+			}
+			line := rest[:j]
+			name, email := w.ident[who+".name"], w.ident[who+".email"]
+			key := who + "|" + line
+			if seen[key] {
+				continue
+			}
+			seen[key] = true
+			// commits that arrived from B were written under B's configuration (nothing set): "<>"
+			if line == " <>" && (name != "" || email != "") {
+				continue
+			}
+			id := c.emit(map[string]any{"cmd": "ident", "name": name, "email": email, "who": who}, map[string]any{"line": line, "fsck": true})
+			c.count("ident-lines")
+			_ = id
+		}
 	}
 }
